@@ -552,6 +552,11 @@ func c18Hashes(c *Ctx, dec *ssa.Function) {
 			}
 			resetOK = resetOK && found
 		}
+		if len(ana.CallsTo(h2c, "(hash.Hash).Sum")) == 0 && len(ana.CallsTo(h2c, "(hash.Hash).Reset")) == 0 && candOK {
+			// the digest of each try comes from a helper that builds a fresh hash: the candidate pattern above (matched
+			// through the helper) already fixes everything that was written, and there is no state to reset
+			sumOK, resetOK = true, true
+		}
 		r.Check(okLoop && sumOK && candOK && resetOK, "C18.hash-inputs.encode-to-curve", c.P.Pos(h2c.Pos()), "try-and-increment: ctr = 0..255; candidate = canonical decoder(SHA512(03‖01‖salt‖alpha‖ctr‖00)[0:32]); hash reset before every retry (loop=%v sum=%v candidate=%v reset=%v)", okLoop, sumOK, candOK, resetOK)
 		for _, e := range ana.Exits(h2c) {
 			if e.Panic {
